@@ -19,3 +19,88 @@ func H_C18_rec() {
 	vAssert(vEqBytes(got, want), "C18.rec.bytes")
 	vCover("C18.rec.done")
 }
+
+func H_C18_hdr() {
+	got, err := newHeader().MarshalBinary()
+	vAssert(err == nil, "C18.hdr.err")
+	vAssert(len(got) == 512 && headerSize == 512, "C18.hdr.size")
+	vAssert(vEqBytes(got, refHeader()), "C18.hdr.bytes")
+	h := &header{}
+	vAssert(h.UnmarshalBinary(refHeader()) == nil, "C18.hdr.accepts-reference")
+	vAssert(h.formatVersion == 2, "C18.hdr.version")
+	// any other signature is rejected
+	bad := refHeader()
+	sig := vBytes("sig", 8)
+	copy(bad, sig)
+	vAssume(!vEqBytes(sig, refHeader()[:8]))
+	vAssert(h.UnmarshalBinary(bad) == errCorrupted, "C18.hdr.rejects-bad-signature")
+	vCover("C18.hdr.done")
+}
+
+// refBucket lays a bucket out as documented: 31 x (hash u32, segment u16,
+// key size u16, value size u32, offset u32) little endian, next i64 at 496.
+func refBucket(b *bucket) []byte {
+	out := make([]byte, 512)
+	for i := 0; i < 31 && i < slotsPerBucket; i++ {
+		sl := b.slots[i]
+		o := 16 * i
+		out[o] = byte(sl.hash)
+		out[o+1] = byte(sl.hash >> 8)
+		out[o+2] = byte(sl.hash >> 16)
+		out[o+3] = byte(sl.hash >> 24)
+		out[o+4] = byte(sl.segmentID)
+		out[o+5] = byte(sl.segmentID >> 8)
+		out[o+6] = byte(sl.keySize)
+		out[o+7] = byte(sl.keySize >> 8)
+		out[o+8] = byte(sl.valueSize)
+		out[o+9] = byte(sl.valueSize >> 8)
+		out[o+10] = byte(sl.valueSize >> 16)
+		out[o+11] = byte(sl.valueSize >> 24)
+		out[o+12] = byte(sl.offset)
+		out[o+13] = byte(sl.offset >> 8)
+		out[o+14] = byte(sl.offset >> 16)
+		out[o+15] = byte(sl.offset >> 24)
+	}
+	n := uint64(b.next)
+	for j := 0; j < 8; j++ {
+		out[16*31+j] = byte(n >> (8 * uint(j)))
+	}
+	return out
+}
+
+func H_C18_bucket() {
+	vAssert(slotsPerBucket == 31 && bucketSize == 512, "C18.bucket.constants")
+	b := &bucket{}
+	for i := 0; i < slotsPerBucket; i++ {
+		b.slots[i] = slot{hash: vU32("h"), segmentID: vU16("seg"), keySize: vU16("ks"), valueSize: vU32("vs"), offset: vU32("off")}
+	}
+	b.next = int64(vU64("next"))
+	got, err := b.MarshalBinary()
+	vAssert(err == nil, "C18.bucket.err")
+	want := refBucket(b)
+	vAssert(vEqBytes(got, want), "C18.bucket.marshal")
+	b2 := &bucket{}
+	vAssert(b2.UnmarshalBinary(want) == nil, "C18.bucket.unmarshal.err")
+	same := b2.next == b.next
+	for i := 0; i < slotsPerBucket; i++ {
+		same = vAnd(same, b2.slots[i] == b.slots[i])
+	}
+	vAssert(same, "C18.bucket.unmarshal")
+	for _, i := range []uint32{0, 1, 2, 1000, 1 << 22} {
+		vAssert(bucketOffset(i) == 512+512*int64(i), "C18.bucket.offset")
+	}
+	vCover("C18.bucket.done")
+}
+
+func H_C18_names() {
+	vAssert(segmentName(0, 1) == "00000-1.psg", "C18.names.0")
+	vAssert(segmentName(7, 12345678901) == "00007-12345678901.psg", "C18.names.1")
+	vAssert(segmentName(32766, 42) == "32766-42.psg", "C18.names.2")
+	id, seq, err := parseSegmentName("00007-12345678901.psg")
+	vAssert(err == nil && id == 7 && seq == 12345678901, "C18.names.parse")
+	id, seq, err = parseSegmentName("00003.psg") // format version 1 names carry no sequence id
+	vAssert(err == nil && id == 3 && seq == 0, "C18.names.parse-legacy")
+	vAssert(segmentMetaName(1, 2) == "00001-2.psg.pmt", "C18.names.meta")
+	vAssert(indexMainName == "main.pix" && indexOverflowName == "overflow.pix" && indexMetaName == "index.pmt" && dbMetaName == "db.pmt" && lockName == "lock", "C18.names.files")
+	vCover("C18.names.done")
+}
